@@ -9,6 +9,7 @@ use std::cell::RefCell;
 use std::sync::Arc;
 
 pub mod frim;
+pub mod ribq;
 pub mod bmp_io;
 pub mod bmp_sm;
 pub mod c17;
